@@ -470,7 +470,7 @@ func c06Pid(ctx *Ctx) {
 
 func init() {
 	register("C06", func(ctx *Ctx) {
-		n := ctx.N(40000, 2000000)
+		n := ctx.N(400000, 4000000)
 		for k := 0; k < n; k++ {
 			switch k % 3 {
 			case 0:
